@@ -4,6 +4,7 @@
 //#include <crab/cfg/basic_block_traits.hpp>
 
 #include <algorithm>
+#include <limits>
 #include <boost/graph/dominator_tree.hpp>
 #include <boost/property_map/property_map.hpp>
 #include <boost/version.hpp>
@@ -74,7 +75,12 @@ void dominator_tree(G g, typename G::node_t entry, Map &idom) {
     put(index_map, *It, j);
   }
 
-  std::vector<vertices_size_type_t> df_num(num_vertices(g), 0);
+  // boost::lengauer_tarjan_dominator_tree: "Unreachable nodes must be masked
+  // as (std::numeric_limits<VerticesSizeType>::max)() in dfnumMap". With 0
+  // an unreachable predecessor looks like the entry (dfnum 0) and becomes
+  // the semidominator of its reachable successors.
+  std::vector<vertices_size_type_t> df_num(
+      num_vertices(g), (std::numeric_limits<vertices_size_type_t>::max)());
   time_map_t df_num_map(make_iterator_property_map(df_num.begin(), index_map));
   std::vector<node_t> parent(num_vertices(g),
                              boost::graph_traits<G>::null_vertex());
